@@ -408,16 +408,45 @@ class FactoryOracle:
                         self.mon.violation("C11", "can_query_inexact", f"{sh.kind}:can_put={bool(res)}-but-free-space={sh.free()}",
                                            {"edge": edge.id, "held": len(sh.held), "granted_put": len(sh.grant["put"]), "cap": sh.cap})
 
+    def _held_in_frame(self, proc, depth=1):
+        """Flow items found among the arguments and locals of a process (and `depth`-1 parents) that the ledger places in
+        the owning node (or, for a source, still held by it).  Used when the names the unchanged tree gives its variables
+        are not there: the oracle must not depend on how a local variable is called."""
+        out, seen = [], set()
+        p = proc
+        for _ in range(depth):
+            if p is None:
+                break
+            owner = getattr(p, "mon_owner", None)
+            L = self.ledgers.get(id(owner))
+            vals = list((p.mon_args or {}).values()) + list(p.mon_locals().values())
+            for v in vals:
+                st = self.items.get(id(v))
+                if st is None or id(v) in seen:
+                    continue
+                seen.add(id(v))
+                if L is not None and st.where == L.id and st.state in ("IN_NODE", "CREATED"):
+                    out.append(v)
+            p = getattr(p, "mon_parent", None)
+        # an item proper before the pallet that carries / carried it
+        out.sort(key=lambda v: 0 if self.items[id(v)].kind == "item" else 1)
+        return out
+
     def _item_of_proc(self, proc):
         if proc is None:
             return None
+        x = None
         if proc.mon_name == "_push_item":
             a = proc.mon_args
             x = a.get("item_to_push")
             if x is None:
                 x = a.get("item")
-            return x
-        return proc.mon_locals().get("item")
+        else:
+            x = proc.mon_locals().get("item")
+        if x is None or id(x) not in self.items:
+            held = self._held_in_frame(proc)
+            x = held[0] if held else x
+        return x
 
     def _attempt(self, L, proc, edge, can_result):
         x = self._item_of_proc(proc)
@@ -501,6 +530,9 @@ class FactoryOracle:
             x = loc.get("item")
             if x is None:
                 x = loc.get("item_to_push")
+            if x is None or id(x) not in self.items:
+                held = self._held_in_frame(proc)
+                x = held[0] if held else x
         sx = self.items.get(id(x)) if x is not None else None
         if sx is None:
             mon.violation("C03", "discard_without_item", f"{L.type}:discard-counted-but-no-item-left-the-node", {"node": L.id})
@@ -697,8 +729,16 @@ class FactoryOracle:
             p = getattr(p, "mon_parent", None)
             if p is None:
                 break
-        if L.type == "source":
-            return None
+        # names not found: any argument / local of the process chain that is the object of one of the node's open units
+        p = proc
+        for _ in range(3):
+            if p is None:
+                break
+            for v in list((p.mon_args or {}).values()) + list(p.mon_locals().values()):
+                u = L.by_item.get(id(v))
+                if u is not None:
+                    return u
+            p = getattr(p, "mon_parent", None)
         return None
 
     def on_put(self, L, edge, x, proc, now):
@@ -970,9 +1010,8 @@ class FactoryOracle:
     def _refs(self, L):
         node = L.node
         refs = set()
-        for name in ("item_in_process", "pallet_in_process"):
-            v = getattr(node, name, None)
-            if v is not None:
+        for v in list(vars(node).values()):
+            if v is not None and id(v) in self.items:
                 refs.add(id(v))
         procs = self.node_procs.get(id(node), [])
         alive = []
@@ -1006,6 +1045,12 @@ class FactoryOracle:
         self._live = set()
         for L in self.ledgers.values():
             node = L.node
+            if not isinstance(node.stats, ObsDict):
+                # the node replaced its statistics dictionary (e.g. re-created it in reset()): observe the new one
+                st = ObsDict(node.stats)
+                st._cb = (lambda k, old, new, L=L: self.on_counter(L, k, old, new))
+                node.stats = st
+                mon.counters["stats_dict_rewrapped"] += 1
             # ---------------- C03: every item the ledger places in the node is really held by it
             if L.inside:
                 refs = self._refs(L)
